@@ -20,10 +20,12 @@ EXTENDS Integers, Sequences, FiniteSets, FiniteSetsExt, TLC
 
 \* Guards are grouped by the property they state, so that a rejected implementation trace can be
 \* attributed: re-validating with one group relaxed tells which property's guard failed.
-CONSTANT Relax      \* subset of {"C01", "C05", "C09"}; {} in every registered check
+CONSTANT Relax      \* subset of {"C01", "C05", "C09", "C10", "C12"}; {} in every registered check
 G1(p) == ("C01" \in Relax) \/ p      \* commitment contents, agreement, conservation, limits
 G5(p) == ("C05" \in Relax) \/ p      \* revocation discipline, commitment numbering
 G9(p) == ("C09" \in Relax) \/ p      \* monitor-update ordering and release conditions
+G10(p) == ("C10" \in Relax) \/ p     \* restart: stale managers close, others resume
+G12(p) == ("C12" \in Relax) \/ p     \* serialization round trips
 
 VARIABLES
   par,    \* [chan -> parameters]  value_sat, funder (1|2), type, dust[1..2], feerate0
@@ -304,6 +306,38 @@ Reconnect(E) ==
   /\ \A e \in E : link[e] = "down"
   /\ link' = [e \in DOMAIN link |-> IF e \in E THEN "sync" ELSE link[e]]
   /\ Unch(<<par, cnt, hs, fees, feeBase, base, redo, lastCS, order, pts, mon, ownExp>>)
+
+\* ------------------------------------------------------------ restart from persisted state (C10)
+\* what a ChannelManager snapshot remembers of the endpoints in E
+Snapshot(E) == [cnt |-> [e \in E |-> cnt[e]], hs |-> [e \in E |-> hs[e]], fees |-> [e \in E |-> fees[e]],
+                feeBase |-> [e \in E |-> feeBase[e]], base |-> [e \in E |-> base[e]],
+                lastCS |-> [e \in E |-> lastCS[e]], order |-> [e \in E |-> order[e]],
+                pts |-> [e \in E |-> pts[e]], mon |-> [e \in E |-> mon[e]], ownExp |-> [e \in E |-> ownExp[e]],
+                link |-> [e \in E |-> link[e]]]
+
+\* The node owning endpoints E stops and comes back from snapshot S of its manager and, per
+\* channel, a monitor that has applied updates up to M[e].  P are its peers' endpoints.  A manager
+\* that is older than its monitor must not resume the channel: it is closed from the monitor.
+Stale(S, M, e) == S.mon[e].last < M[e]
+Restart(E, P, S, M) ==
+  /\ link' = [e \in DOMAIN link |->
+       IF e \in E THEN (IF S.link[e] = "closed" \/ link[e] = "closed" \/ Stale(S, M, e) THEN "closed" ELSE "down")
+       ELSE IF e \in P /\ link[e] # "closed" THEN "down" ELSE link[e]]
+  /\ cnt' = [e \in DOMAIN cnt |-> IF e \in E THEN S.cnt[e] ELSE cnt[e]]
+  /\ hs' = [e \in DOMAIN hs |-> IF e \in E THEN Forgotten(S.hs[e]) ELSE IF e \in P THEN Forgotten(hs[e]) ELSE hs[e]]
+  /\ fees' = [e \in DOMAIN fees |-> IF e \in E THEN SelectSeq(S.fees[e], LAMBDA f : f.st > 0)
+                                     ELSE IF e \in P THEN SelectSeq(fees[e], LAMBDA f : f.st > 0) ELSE fees[e]]
+  /\ feeBase' = [e \in DOMAIN feeBase |-> IF e \in E THEN S.feeBase[e] ELSE feeBase[e]]
+  /\ base' = [e \in DOMAIN base |-> IF e \in E THEN S.base[e] ELSE base[e]]
+  /\ lastCS' = [e \in DOMAIN lastCS |-> IF e \in E THEN S.lastCS[e] ELSE lastCS[e]]
+  /\ order' = [e \in DOMAIN order |-> IF e \in E THEN S.order[e] ELSE order[e]]
+  /\ pts' = [e \in DOMAIN pts |-> IF e \in E THEN S.pts[e] ELSE pts[e]]
+  /\ ownExp' = [e \in DOMAIN ownExp |-> IF e \in E THEN S.ownExp[e] ELSE ownExp[e]]
+  /\ redo' = [e \in DOMAIN redo |-> IF e \in E \cup P THEN [cs |-> FALSE, raa |-> FALSE, upd |-> {}] ELSE redo[e]]
+  \* the monitor is what was durable; updates the manager still holds in flight are replayed
+  /\ mon' = [e \in DOMAIN mon |-> IF e \in E THEN [S.mon[e] EXCEPT !.last = IF M[e] < @ THEN M[e] ELSE @, !.infl = {}]
+                                   ELSE mon[e]]
+  /\ Unch(<<par>>)
 
 \* e announces where it stands
 SendReestablish(e, nextLocal, nextRemote) ==
